@@ -23,12 +23,17 @@ U = project.uncps
 HERE = os.path.dirname(os.path.dirname(os.path.abspath(__file__)))
 
 
+TITLES = {}
+
+
 def build_sa(sa_db, style, steps, flt):
     from odata_query.sqlalchemy import apply_odata_query
     sa = sa_db.sa
     Post, Author = sa_db.models["Post"], sa_db.models["Author"]
-    q = sa.select(Post) if style == "sa-select" else sa_db.session.query(Post)
-    where = (lambda q, c: q.where(c)) if style == "sa-select" else (lambda q, c: q.filter(c))
+    cols = style.endswith("-cols")          # the base selects the title only: rows that look alike must all be kept
+    sel = style.startswith("sa-select")
+    q = (sa.select(Post.title) if cols else sa.select(Post)) if sel else sa_db.session.query(Post.title if cols else Post)
+    where = (lambda q, c: q.where(c)) if sel else (lambda q, c: q.filter(c))
     for kind, arg in steps:
         if kind == "where":
             cond = {"npos": lambda: Post.n > 0, "ta": lambda: Post.title == "a",
@@ -46,12 +51,14 @@ def build_sa(sa_db, style, steps, flt):
             q = q.add_columns((Post.id * 2).label("extra"))
         elif kind == "apply":
             q = apply_odata_query(q, flt)
-    if style == "sa-select":
+    if sel:
         rows = sa_db.session.execute(q).all()
         sql = str(q.compile(sa_db.engine))
     else:
         rows = q.all()
         sql = str(q.statement.compile(sa_db.engine))
+    if cols:
+        return [("title", r[0], r[1] if len(r) > 1 else None) for r in rows], sql
     out = []
     for r in rows:
         ent = r[0] if hasattr(r, "_fields") or isinstance(r, tuple) else r
@@ -100,6 +107,7 @@ def run(ctx):
         if res.violation:
             ctx.violation({"kind": "model", "inv": res.violation}, {"tlc": res.raw_tail[-2000:]})
         db = [r for r in res.records if r["k"] == "db"][0]["db"]
+        TITLES[inst] = db["Post"]
         dj = backends.RelDjango(); dj.load(db)
         sa = backends.RelSa(); sa.load(db)
         for r in res.records:
@@ -121,16 +129,32 @@ def check_case(ctx, r, dj, sa):
     except Exception as e:  # noqa
         ctx.violation(dict(key, what="raised", exc=type(e).__name__), {"case": r, "exc": str(e)[:300]})
         return
+    want = sorted(r["expected"])
+    bag = sorted(i for i, m in r["mult"] for _ in range(m))          # a filter that joins a collection: once per match
+    if style.endswith("-cols"):
+        # the rows carry the title only: the expected bag of titles follows from the expected bag of rows
+        title = {p["id"]: backends._col(p["title"]) for p in TITLES[r["inst"]]}
+        got = [(t, e) for _, t, e in rows]
+        exp = [(title[i], i * 2 if r["annot"] else None) for i in (sorted(bag, reverse=True) if r["ordered"] else bag)]
+        ks = (lambda x: (x[0] is None, x[0] or "", x[1] or 0))
+        if (got != exp) if (r["ordered"] and r["annot"]) else (sorted(got, key=ks) != sorted(exp, key=ks)):
+            ctx.violation(dict(key, what="wrong-rows"), {"case": r, "got": got[:40], "expected": exp[:40], "sql": sql[:700]})
+        elif r["ordered"] and [t for t, _ in got] != [t for t, _ in exp]:
+            ctx.violation(dict(key, what="base-order-lost"), {"case": r, "got": got[:40], "sql": sql[:700]})
+        if len(steps) >= 3 and 0 < len(want) < len(r["base"]):
+            ctx.nontriv([style, steps])
+        return
     ids = [i for i, _ in rows]
     dedup = list(dict.fromkeys(ids))
-    want = sorted(r["expected"])
     if sorted(set(ids)) != want:
         ctx.violation(dict(key, what="wrong-rows"), {"case": r, "got": sorted(set(ids)), "expected": want, "sql": sql[:700]})
         return
-    if len(ids) != len(dedup):
-        ctx.violation(dict(key, what="duplicate-rows"), {"case": r, "got": ids, "sql": sql[:700]})
+    if style == "sa-legacy":
+        bag = want             # SQLAlchemy legacy Query de-duplicates rows that carry an entity itself
+    if sorted(ids) != bag:
+        ctx.violation(dict(key, what="duplicate-rows"), {"case": r, "got": ids, "expected": bag, "sql": sql[:700]})
         return
-    if r["ordered"] and ids != sorted(want, reverse=True):
+    if r["ordered"] and ids != sorted(bag, reverse=True):
         ctx.violation(dict(key, what="base-order-lost"), {"case": r, "got": ids, "sql": sql[:700]})
     if r["annot"] and any(e != i * 2 for i, e in rows):
         ctx.violation(dict(key, what="annotation-lost"), {"case": r, "rows": rows[:5], "sql": sql[:700]})
@@ -171,6 +195,7 @@ def replay(ctx, rep):
         return
     res = tlc.run("MC_C15", constants={"Inst": rep["detail"]["case"].get("inst", 0), "Deep": "FALSE"}, keep_lines=lambda r: r.get("k") == "db", timeout=3000)
     db = res.records[0]["db"]
+    TITLES[rep["detail"]["case"].get("inst", 0)] = db["Post"]
     dj = backends.RelDjango(); dj.load(db)
     sa = backends.RelSa(); sa.load(db)
     print(json.dumps(d["case"])[:600])
